@@ -60,7 +60,19 @@ fn angle_between(a: &Vector3, b: &Vector3) -> f64 {
 fn predicate(raw: &RawMesh, refm: &Mesh, ext: f64, f: usize, cr: &Crit) -> Option<bool> {
     let t = raw.f[f];
     let (a, b, c) = (raw.v[t[0] as usize], raw.v[t[1] as usize], raw.v[t[2] as usize]);
-    let fnrm = (b - a).cross(&(c - a)).normalize();
+    let cr0 = (b - a).cross(&(c - a));
+    if cr0.norm() == 0.0 {
+        // a zero-area face has no normal: it never faces a direction, and it is near another mesh
+        // only when no angle tolerance is asked for
+        match cr {
+            Crit::Facing { .. } => return Some(false),
+            Crit::Near { angle: Some(_), .. } => return Some(false),
+            _ => {}
+        }
+    } else if cr0.norm() < 1e-9 * (b - a).norm() * (c - a).norm() {
+        return None; // a sliver whose normal is rounding noise
+    }
+    let fnrm = cr0.normalize();
     match cr {
         Crit::Facing { n, angle } => {
             let th = angle_between(&fnrm, n);
@@ -145,9 +157,22 @@ fn run(c: &mut Ctx) {
     let pose = gen::iso3(&mut c.rng, 3.0 * scale);
     let raw = raw.scaled(scale).transformed(&pose);
     let ext = raw.extent();
+    // one mesh in five carries a zero-area face (third vertex coincides with the first) at a random
+    // position of the face list: a valid mesh, whose degenerate face has no normal
+    let raw_for_reference = raw.clone();
+    let mut raw = raw;
+    if c.rng.chance(0.2) {
+        let t = raw.f[c.rng.int(0, raw.f.len() - 1)];
+        raw.v.push(raw.v[t[0] as usize]);
+        let k = raw.v.len() as u32 - 1;
+        let at = c.rng.int(0, raw.f.len());
+        raw.f.insert(at, [t[0], t[1], k]);
+        raw.name = "with-zero-area-face";
+    }
+    let raw = raw;
     // reference mesh: the same surface moved slightly, or only part of it
     let shift = gen::small_iso3(&mut c.rng, 0.05 * ext, 0.1);
-    let mut rref = raw.transformed(&shift);
+    let mut rref = raw_for_reference.transformed(&shift);
     if c.rng.chance(0.4) && rref.f.len() > 8 {
         let keep = c.rng.int(rref.f.len() / 3, rref.f.len() - 1);
         rref.f.truncate(keep);
